@@ -1,0 +1,113 @@
+//go:build verif
+
+// Contracts for WAF construction and validation (package corazawaf): Validate, NewWAF defaults, and the
+// per-transaction copies of the WAF configuration made by newTransaction.
+// Checked by /verif/govc (comment-only file; no code). Trusted specs: /verif/specs/wafconfig.spec.
+package corazawaf
+
+// ---------------------------------------------------------------- Validate (C10)
+
+// maxBodyLimit: the documented upper bound of both body limits (1 GiB, `_1gib` in waf.go).
+//@ define maxBodyLimit() int := 1073741824
+
+// LimitsOK(w): exactly the conditions Validate documents (its error messages), one conjunct per message.
+//@ define ReqLimitOK(w *WAF) bool := 0 < w.RequestBodyLimit && w.RequestBodyLimit <= maxBodyLimit()
+//@ define MemLimitOK(w *WAF) bool := w.requestBodyInMemoryLimit != nil ==>
+//@     (0 < deref(w.requestBodyInMemoryLimit) && deref(w.requestBodyInMemoryLimit) <= w.RequestBodyLimit)
+//@ define RespLimitOK(w *WAF) bool := 0 < w.ResponseBodyLimit && w.ResponseBodyLimit <= maxBodyLimit()
+//@ define UploadOK(w *WAF) bool := ite(environment.HasAccessToFS,
+//@     w.UploadKeepFiles != types.UploadKeepFilesOff ==> w.UploadDir != "",
+//@     w.UploadKeepFiles == types.UploadKeepFilesOff)
+//@ define LimitsOK(w *WAF) bool := ReqLimitOK(w) && MemLimitOK(w) && RespLimitOK(w) && w.ArgumentLimit > 0 &&
+//@     w.RequestBodyJsonDepthLimit > 0 && UploadOK(w)
+
+// (environment.HasAccessToFS is a package variable assigned once, `true` in the default build that govc loads; the
+// engine folds it, so noKeepWithoutFS is decided syntactically and the return in the no-filesystem branch is dead here:
+// cover-return/reachable#1 `failed` is expected.)
+//@ func (*WAF).Validate props C10,C07
+//@   requires recv: w != nil
+//@   modifies nothing
+//@   ensures reqPositive: isnil(result) ==> 0 < w.RequestBodyLimit
+//@   ensures reqAtMostMax: isnil(result) ==> w.RequestBodyLimit <= 1073741824
+//@   ensures memPositive: isnil(result) && w.requestBodyInMemoryLimit != nil ==> 0 < deref(w.requestBodyInMemoryLimit)
+//@   ensures memAtMostReq: isnil(result) && w.requestBodyInMemoryLimit != nil ==> deref(w.requestBodyInMemoryLimit) <= w.RequestBodyLimit
+//@   ensures respPositive: isnil(result) ==> 0 < w.ResponseBodyLimit
+//@   ensures respAtMostMax: isnil(result) ==> w.ResponseBodyLimit <= 1073741824
+//@   ensures argLimitPositive: isnil(result) ==> w.ArgumentLimit > 0
+//@   ensures jsonDepthPositive: isnil(result) ==> w.RequestBodyJsonDepthLimit > 0
+//@   ensures uploadDirWithFS: isnil(result) && environment.HasAccessToFS && w.UploadKeepFiles != types.UploadKeepFilesOff ==> w.UploadDir != ""
+//@   ensures noKeepWithoutFS: isnil(result) && !environment.HasAccessToFS ==> w.UploadKeepFiles == types.UploadKeepFilesOff
+//@   ensures errorExactly: !isnil(result) <==> !LimitsOK(w)
+
+// ---------------------------------------------------------------- newTransaction: configuration copies (C05, C19, C10)
+
+// Every per-transaction copy of a WAF setting is the WAF's CURRENT value when the transaction is handed out, for a
+// recycled object as for a new one (a predecessor that changed it by ctl leaves nothing behind), and the
+// per-transaction switches that have no WAF-wide counterpart are off. (RuleEngine, AuditEngine, the body access flags
+// and limits and WAF are pinned by the unit in zz_contracts_verif.go already; only the missing fields are added here.)
+//@ func (*WAF).newTransaction extend props C05,C19,C10
+//@   ensures cfgAuditLogParts: result.AuditLogParts == w.AuditLogParts
+//@   ensures cfgAuditLogFormat: result.AuditLogFormat == w.AuditLogFormat
+//@   ensures cfgForceRequestBodyVariable: !result.ForceRequestBodyVariable
+//@   ensures cfgForceResponseBodyVariable: !result.ForceResponseBodyVariable
+//@   ensures cfgHashEngine: !result.HashEngine
+//@   ensures cfgHashEnforcement: !result.HashEnforcement
+//@   ensures cfgLogdata: result.Logdata == ""
+//@   ensures cfgContext: result.context == opts.Context
+//@   ensures cfgUnchangedWAF: w.AuditLogParts == old(w.AuditLogParts) && w.AuditLogFormat == old(w.AuditLogFormat) && w.AuditEngine == old(w.AuditEngine) &&
+//@       w.RuleEngine == old(w.RuleEngine) && w.RequestBodyAccess == old(w.RequestBodyAccess) && w.RequestBodyLimit == old(w.RequestBodyLimit) &&
+//@       w.ResponseBodyAccess == old(w.ResponseBodyAccess) && w.ResponseBodyLimit == old(w.ResponseBodyLimit)
+// (cfgUnchangedWAF is decided syntactically -- newTransaction and its callees write no WAF field -- so no obligation
+// is listed for it.) The limits of the body buffers are taken from the WAF when the buffers are created, i.e. for a
+// brand-new object only; a recycled object keeps the buffers (and their limits) it was created with:
+// UNPROVED: ensures cfgReqBufferLimitsNew: fresh(result.requestBodyBuffer) ==> result.requestBodyBuffer.options.Limit == w.RequestBodyLimit &&
+// UNPROVED:     result.requestBodyBuffer.options.MemoryLimit == ite(w.requestBodyInMemoryLimit != nil, deref(w.requestBodyInMemoryLimit), w.RequestBodyLimit)
+// UNPROVED: ensures cfgRespBufferLimitsNew: fresh(result.responseBodyBuffer) ==> result.responseBodyBuffer.options.Limit == w.ResponseBodyLimit &&
+// UNPROVED:     result.responseBodyBuffer.options.MemoryLimit == w.ResponseBodyLimit
+// NOT CLAIMED (does not hold for a recycled object, whose buffers keep the limits they were created with): cfgBufferLimitsRecycled: result.requestBodyBuffer.options.Limit == w.RequestBodyLimit && result.responseBodyBuffer.options.Limit == w.ResponseBodyLimit
+
+// ---------------------------------------------------------------- the in-memory limit setter (C10)
+
+//@ func (*WAF).SetRequestBodyInMemoryLimit props C10,C07
+//@   requires recv: w != nil
+//@   modifies w.requestBodyInMemoryLimit
+//@   ensures set: w.requestBodyInMemoryLimit != nil && deref(w.requestBodyInMemoryLimit) == limit
+//@   ensures freshCell: fresh(w.requestBodyInMemoryLimit)
+//@ func (*WAF).RequestBodyInMemoryLimit props C10,C07
+//@   requires recv: w != nil
+//@   modifies nothing
+//@   ensures same: result == w.requestBodyInMemoryLimit
+
+// ---------------------------------------------------------------- NewWAF: the defaults (C10, C02)
+
+// The documented defaults, and: the defaults satisfy Validate (LimitsOK is exactly Validate's acceptance condition,
+// `errorExactly`).
+//@ func NewWAF props C10,C02,C07
+//@   ensures made: result != nil && fresh(result)
+//@   ensures defaultsValid: LimitsOK(result)
+//@   ensures defEngine: result.RuleEngine == types.RuleEngineOn
+//@   ensures defRequestAction: result.RequestBodyLimitAction == types.BodyLimitActionReject
+//@   ensures defResponseAction: result.ResponseBodyLimitAction == types.BodyLimitActionProcessPartial
+//@   ensures defRequestLimit: result.RequestBodyLimit == 134217728 && result.requestBodyInMemoryLimit == nil && !result.RequestBodyAccess
+//@   ensures defResponseLimit: result.ResponseBodyLimit == 524288 && !result.ResponseBodyAccess
+//@   ensures defArgumentLimit: result.ArgumentLimit == 1000 && result.RequestBodyJsonDepthLimit == 1024
+// (documented default of SecAuditEngine: Off, directives.go. GENUINE FAILURE of defAuditEngine: NewWAF leaves the zero
+// value, which is types.AuditEngineOn; test TestZWafcfgDefaultAuditEngine.)
+//@   ensures defAuditEngine: result.AuditEngine == types.AuditEngineOff
+//@   ensures defAuditFormat: result.AuditLogFormat == "Native"
+//@   ensures defAuditParts: len(result.AuditLogParts) == 4
+//@   ensures defLogger: !isnil(result.Logger)
+//@   ensures defPool: !isnil(result.txPool)
+
+// ---------------------------------------------------------------- options reach newTransaction unchanged (C05)
+
+// NoLockHeld(): the sequential view NewTransaction* require (`noLockHeld`), as a predicate usable from package coraza
+// (which does not import sync).
+//@ define NoLockHeld() bool := forall mx *sync.Mutex :: !mx.held
+
+//@ func (*WAF).NewTransactionWithOptions extend props C05
+//@   ensures givenContext: !isnil(opts.Context) ==> result.context == opts.Context
+//@   ensures defaultContext: isnil(opts.Context) ==> result.context == ctxBackground()
+//@   at call "w.newTransaction(opts)" requires idUnchanged: old(opts.ID) != "" ==> arg(1).ID == old(opts.ID)
+//@   at call "w.newTransaction(opts)" requires idNeverEmpty: arg(1).ID != ""
+//@   at call "w.newTransaction(opts)" requires contextUnchanged: !isnil(old(opts.Context)) ==> arg(1).Context == old(opts.Context)
